@@ -60,6 +60,12 @@ def plan(tier: str, seed: int) -> Plan:
                                    required=False,
                                    bounds="two positions each holding a primitive of any kind or an array/object around the leaves; "
                                           "filter context holds a symbolic primitive"))
+    illtyped = ["$[?count(1) == 1]", "$[?count(@.a) == @.b]", "$[?length(@.*) == 1]", "$[?value(@.a) == count(@.b)]", "$[?value('a') == 1]",
+                "$[?count(@.a == 1) == 1]", "$[?length(@.a) && match(@.*, @.b)]", "$[?match(@.*, 1)]", "$[?count(length(@.a)) == 1]"]
+    for i, q in enumerate(illtyped if thorough else illtyped[:6]):
+        conds.append(Condition(f"eval-untyped:{q}", "evaluate", H, "evaluate",
+                               {"qtext": q, "spine": ["objarr", "obj", "arr"][i % 3], "maxn": 1, "well_typed": False}, T * 2, required=False,
+                               bounds="environment with well-typedness checks disabled: ill-typed function calls reach evaluation"))
     conds.append(Condition("pointer-text", "pointer", H, "pointer_text", {"maxs": 4 if thorough else 2}, T * 2, required=False,
                            bounds=f"pointer text: symbolic str len<={4 if thorough else 2}, escape decoding off; documents with a symbolic leaf"))
     sg = 20 if thorough else 11
